@@ -8,7 +8,7 @@
    description: any number of fields, columns, records, any widths (0 and
    min = max included), any texts, any limits. *)
 From Coq Require Import ZArith List Bool Arith.
-From AK Require Import Common.Sx Common.Err gen.C12_Consts C12.Model C12.Run C12.Spec C12.Lemmas.
+From AK Require Import Common.Sx Common.Err gen.C12_Consts C12.Model C12.Run C12.Spec C12.Lemmas C12.HistLemmas.
 Import ListNotations.
 
 (* ---- obligations on the literals read from ak/ppobj.py ---- *)
@@ -195,6 +195,7 @@ Theorem run_verdict : forall c, run c = verdict_ok <->
   | mkCase t expect => render t = expect
   | FitCase chunks w al expect => fit_text chunks w al = expect
   | ResizeCase chunks n expect => concat (resize_chunks_list chunks n) = expect
+  | HistCase ts ops expect => hist_events ts ops = expect
   end.
 Proof. exact run_verdict_l. Qed.
 Print Assumptions run_verdict.
@@ -226,3 +227,161 @@ Example ex_renders :
     [84;111;116;97;108;32;53;46;46;46]%Z].             (* Total 5... *)
 Proof. vm_compute. reflexivity. Qed.
 Print Assumptions ex_renders.
+
+(* ================================================================== histories (C12/Hist.v)
+   Several tables side by side, printed repeatedly, line by line through interleaved
+   iterators, re-formatted and cloned: [step] / [exec] / [hist_events] say what every call
+   returns; the correspondence check compares this with the implementation call by call. *)
+
+(* ---- a whole print returns the rendering of that table alone and changes nothing,
+        whatever iterators are alive ---- *)
+Theorem render_alone : forall s i t, nth_error (h_tables s) i = Some t ->
+  step s (ORender i) = (s, render t).
+Proof. exact render_alone_l. Qed.
+Print Assumptions render_alone.
+
+(* ---- an operation changes no table but the one it is addressed to (set_fmt, remove_columns);
+        printing, opening and advancing iterators and cloning change no table at all ---- *)
+Theorem tables_frame : forall s o j, j < length (h_tables s) -> op_target o <> Some j ->
+  nth_error (h_tables (fst (step s o))) j = nth_error (h_tables s) j.
+Proof. exact tables_frame_l. Qed.
+Print Assumptions tables_frame.
+
+(* ---- history independence: while table j is not re-formatted, every whole print of it --
+        after any other prints, iterations, re-formats and clones of this or other tables --
+        is [render t], the text of the table printed alone ---- *)
+Theorem history_free : forall ops s s' evs j t,
+  (forall o, In o ops -> op_target o <> Some j) ->
+  nth_error (h_tables s) j = Some t -> exec s ops = (s', evs) ->
+  nth_error (h_tables s') j = Some t /\
+  forall n, nth_error ops n = Some (ORender j) -> nth_error evs n = Some (render t).
+Proof. exact history_free_l. Qed.
+Print Assumptions history_free.
+
+(* ---- line iterators: the first next() prints the table as it is at that moment ... ---- *)
+Theorem iterator_start : forall s g i t k, nth_error (h_gens s) g = Some (GNew i) ->
+  nth_error (h_tables s) i = Some t -> 0 < k ->
+  step s (ONext g k) =
+  match render t with
+  | Ok ls => (set_gen s g (GRun (skipn k ls)), Ok (firstn k ls))
+  | Err e => (set_gen s g (GRun []), Err e)
+  end.
+Proof. exact gen_start_l. Qed.
+Print Assumptions iterator_start.
+
+(* ---- ... and from then on delivers exactly those lines, in order, whatever is done in
+        between to this or other tables and iterators: what is still to come at any later time
+        is what was to come before minus what has been delivered ---- *)
+Theorem iterator_stream : forall ops s g rest s' evs,
+  nth_error (h_gens s) g = Some (GRun rest) -> exec s ops = (s', evs) ->
+  exists rest', nth_error (h_gens s') g = Some (GRun rest') /\ rest = delivered g ops evs ++ rest'.
+Proof. exact gen_stream_l. Qed.
+Print Assumptions iterator_stream.
+
+Theorem iterators_frame : forall s o g, g < length (h_gens s) -> is_next_of g o = false ->
+  nth_error (h_gens (fst (step s o))) g = nth_error (h_gens s) g.
+Proof. exact gens_frame_l. Qed.
+Print Assumptions iterators_frame.
+
+(* ---- what set_fmt, remove_columns and a clone built from t.fmt keep and change ---- *)
+Theorem set_fmt_spec : forall t cs ls t', set_fmt t cs ls = Ok t' ->
+  t_fields t' = t_fields t /\ t_records t' = t_records t /\
+  t_header t' = t_header t /\ t_footer t' = t_footer t /\
+  columns t' = match cs with
+               | CKeep => columns t
+               | CAll => default_cols (t_fields t)
+               | CCols l => l
+               end /\
+  limits t' = match ls with LKeep => limits t | LSet p => p end.
+Proof. exact set_fmt_spec_l. Qed.
+Print Assumptions set_fmt_spec.
+
+Theorem set_fmt_ok_iff : forall t cs ls, constructible t = true ->
+  ((exists t', set_fmt t cs ls = Ok t' /\ constructible t' = true) <->
+   match cs with CCols l => cols_valid (t_fields t) l = true | _ => True end) /\
+  (forall e, set_fmt t cs ls = Err e -> e = ValueErr).
+Proof. exact set_fmt_ok_iff_l. Qed.
+Print Assumptions set_fmt_ok_iff.
+
+Theorem remove_columns_spec : forall t skip,
+  t_fields (remove_cols t skip) = t_fields t /\ t_records (remove_cols t skip) = t_records t /\
+  limits (remove_cols t skip) = limits t /\
+  columns (remove_cols t skip) =
+    filter (fun c => negb (existsb (Nat.eqb (c_field c)) skip)) (columns t).
+Proof. exact remove_cols_spec_l. Qed.
+Print Assumptions remove_columns_spec.
+
+Theorem clone_spec : forall t recs hd ft lim,
+  let t' := clone_table t recs hd ft lim in
+  t_fields t' = t_fields t /\ t_records t' = recs /\ t_header t' = hd /\ t_footer t' = ft /\
+  columns t' = columns t /\
+  limits t' = match lim with Some p => p | None => limits t end.
+Proof. exact clone_spec_l. Qed.
+Print Assumptions clone_spec.
+
+(* ---- non-vacuity: two tables, their iterators interleaved with a whole print, a set_fmt that
+        shows everything, a rejected set_fmt, a clone whose only column is removed
+        (this history is also corpus/C12/history.json: the implementation returns the same) ---- *)
+Definition ex_table2 : table :=
+  mkTable [mkField [103]%Z None KDefault]
+          (Some [mkCol 0 MNone true None])
+          []
+          [[ex_cell [97]%Z false 0]; [ex_cell [98]%Z false 1]; [ex_cell [98]%Z false 1]]
+          None (Some []) None None.
+Definition ex_ops : list op :=
+  [OOpen 0; OOpen 1; ONext 0 5; ONext 1 4; ORender 1; ONext 0 2000; ONext 1 2000;
+   OSetFmt 0 (CCols [mkCol 1 MNone true None]) (LSet (None, None)); ORender 0;
+   OSetFmt 0 (CCols [mkCol 1 MVal true None]) LKeep;
+   OClone 1 [[ex_cell [122;122]%Z false 0]] None (Some []) None; ORemove 2 [0]; ORender 2].
+
+Example ex_history :
+  hist_events [ex_table; ex_table2] ex_ops =
+   ([Ok [];
+    Ok [];
+    Ok [];
+    Ok [];
+    Ok [[43; 43; 45; 45; 45; 45; 43; 45; 45; 43];
+        [124; 72; 101; 97; 100; 101; 46; 46; 46; 124];
+        [124; 124; 110; 32; 32; 32; 124; 105; 100; 124];
+        [43; 43; 45; 45; 45; 45; 43; 45; 45; 43];
+        [124; 124; 97; 46; 46; 46; 124; 32; 49; 124]];
+    Ok [[43; 45; 43];
+        [124; 103; 124];
+        [ 43; 45; 43];
+        [124; 97; 124]];
+    Ok [[43; 45; 43];
+        [124; 103; 124];
+        [ 43; 45; 43];
+        [124; 97; 124];
+        [ 124; 32; 124];
+        [124; 98; 124];
+        [ 124; 98; 124];
+        [43; 45; 43]];
+    Ok [[124; 46; 46; 46; 32; 51; 46; 46; 46; 124];
+        [124; 124; 124; 32; 32; 32; 124; 32; 53; 124];
+        [43; 43; 45; 45; 45; 45; 43; 45; 45; 43];
+        [84; 111; 116; 97; 108; 32; 53; 46; 46; 46]];
+    Ok [[124; 32; 124];
+        [124; 98; 124];
+        [ 124; 98; 124];
+        [43; 45; 43]];
+    Ok [];
+    Ok [[43; 45; 45; 45; 45; 45; 43];
+        [124; 72; 101; 46; 46; 46; 124];
+        [124; 110; 32; 32; 32; 32; 124];
+        [43; 45; 45; 45; 45; 45; 43];
+        [124; 97; 98; 99; 100; 101; 124];
+        [124; 97; 98; 99; 100; 101; 124];
+        [124; 32; 32; 32; 32; 32; 124];
+        [124; 120; 32; 32; 32; 32; 124];
+        [124; 120; 32; 32; 32; 32; 124];
+        [124; 32; 32; 32; 32; 32; 124];
+        [124; 124; 32; 32; 32; 32; 124];
+        [43; 45; 45; 45; 45; 45; 43];
+        [84; 111; 116; 97; 46; 46; 46]];
+    Err ValueErr;
+    Ok [];
+    Ok [];
+    Err AssertErr])%Z.
+Proof. vm_compute. reflexivity. Qed.
+Print Assumptions ex_history.
